@@ -456,6 +456,11 @@ func runC13(c *kit.Ctx) {
 			}
 		}
 	}
+
+	// ---- R9 -----------------------------------------------------------------
+	if !c.Frozen {
+		embed(c, "R9", "a call of a batch whose own context ends is marked failed with that context's error (the positional and outcome rules of C07, run as one rule here)", 20, runC07)
+	}
 }
 
 func reachPath(r *kit.Reach, fn *ssa.Function) string {
